@@ -76,7 +76,14 @@ Seeds == {
        oneOf |-> << Sch([type |-> "object", title |-> "Thing", minProperties |-> 2]) >>,
        allOf |-> << Sch([type |-> "object", title |-> "Thing"]) >>,
        properties |-> << <<"a", Sch([type |-> "object", title |-> "Thing", maxProperties |-> 2])>> >>,
-       patternProperties |-> << <<"^a", Sch([type |-> "object", title |-> "Thing", maxProperties |-> 1])>> >>]),
+       patternProperties |-> << <<"^a", Sch([type |-> "object", title |-> "Thing", maxProperties |-> 1])>> >>,
+       itemsT |-> << Sch([type |-> "object", title |-> "Thing", minProperties |-> 3]) >>,
+       additionalItems |-> Sch([type |-> "object", title |-> "Thing", minProperties |-> 4]),
+       contains |-> Sch([type |-> "object", title |-> "Thing", minProperties |-> 5]),
+       additionalProperties |-> Sch([type |-> "object", title |-> "Thing", minProperties |-> 6]),
+       propertyNames |-> Sch([type |-> "object", title |-> "Thing", minProperties |-> 7]),
+       depsS |-> << <<"a", Sch([type |-> "object", title |-> "Thing", minProperties |-> 8])>> >>])
+    @@ ("not" :> Sch([type |-> "object", title |-> "Thing", minProperties |-> 9])),
   (* two differently named object classes of identical shape in one tree *)
   Sch([type |-> "object", title |-> "T",
        properties |-> << <<"a", Sch([type |-> "object", properties |-> << <<"b", Ty("string")>> >>])>>,
